@@ -301,9 +301,6 @@ def handle : List String → String
   | _ => "bad-op"
 
 /-- counter-example lines replayed on the implementation on every run (see Witness.lean) -/
-def witnessLines : List String :=
-  [-- Witness.include_attribution_full_fails: trusted_proxies 127.0.0.1, outer request for /outer from the untrusted
-   -- 8.8.8.8:1 with `X-Forwarded-For: 6.6.6.6`; the template includes /inner through httpInclude
-   "C10 inc 127.0.0.1 nil 0 . 000 382e382e382e383a31 0 61 582d466f727761726465642d466f72:362e362e362e36 3132372e302e302e31:3132372e302e302e31:1:-:0000;32372e302e302e31:32372e302e302e31:0:-:0000;362e362e362e36:362e362e362e36:0:-:0000;372e302e302e31:372e302e302e31:0:-:0000;382e382e382e38:382e382e382e38:0:-:0000 0 0 0 0 01"]
+def witnessLines : List String := []   -- the tree violates no clause of C10 (Witness.lean holds model facts about old behaviour)
 
 end CaddyModel.C10
